@@ -147,28 +147,19 @@ Proof.
 Qed.
 End Consumed.
 
-(* `x = class case y; end; case z; end a b c;` — the pass is NOT consumed (and the real parser does the
-   same: 12 of 17 tokens), although there is no error and Eof is the last token *)
+(* `x = class case y; end; case z; end a b c;` *)
 Definition refute_toks : list RawTokenType :=
   [RTT_Identifier; RTT_Op (OK_Equal EK_Comp); RTT_Keyword KK_Class; RTT_Keyword KK_Case; RTT_Identifier; RTT_Op OK_Semicolon;
    RTT_Keyword KK_End; RTT_Op OK_Semicolon; RTT_Keyword KK_Case; RTT_Identifier; RTT_Op OK_Semicolon; RTT_Keyword KK_End;
    RTT_Identifier; RTT_Identifier; RTT_Identifier; RTT_Op OK_Semicolon; RTT_Eof].
-Theorem parse_pass_consumed_refuted :
-  exists pass wsnl toks,
-    pass_in_range pass toks /\ eof_only_last pass toks /\ increasing pass /\
-    ps_err pass (parse_pass pass wsnl toks []) = None /\
-    pidx pass (parse_pass pass wsnl toks []) < length pass.
-Proof.
-  exists (seq 0 17), [], refute_toks. split; [|split; [|split; [|split]]].
-  - apply Forall_forall. intros t Ht. apply in_seq in Ht. cbn. lia.
-  - intros k t Hk Ht. assert (k < 17) by (apply nth_error_Some in Hk || (assert (X : nth_error (seq 0 17) k <> None) by congruence; apply nth_error_Some in X; rewrite seq_length in X; exact X)).
-    rewrite seq_length. rewrite nth_error_nth' with (d := 0) in Hk by (rewrite seq_length; assumption).
-    rewrite seq_nth in Hk by assumption. injection Hk as <-. cbn [Nat.add] in Ht.
-    do 17 (destruct k as [|k]; [cbn in Ht; try discriminate; try reflexivity|]). lia.
-  - cbn. repeat (constructor; [repeat (constructor; try lia)|]). constructor.
-  - vm_compute. reflexivity.
-  - vm_compute. lia.
-Qed.
+(* F39: before its repair (repo commit 97f7cb6) this input refuted "the pass is consumed": parse_variant_record returned
+   without popping its context when the case header had no `of`, a TypeDeclaration context survived to the top level, and
+   the pass stopped at token 12 of 17 — the tokens after it were in no logical line.  The model follows the repair; the
+   former witness is now a regression example. *)
+Example parse_pass_consumed_f39_witness :
+  ps_err (seq 0 17) (parse_pass (seq 0 17) [] refute_toks []) = None /\
+  length (seq 0 17) <= pidx (seq 0 17) (parse_pass (seq 0 17) [] refute_toks []).
+Proof. vm_compute. split; [reflexivity|lia]. Qed.
 (* non-vacuity of parse_pass_consumed_if: `a := b;` *)
 Example parse_pass_consumed_example :
   let pass := [0; 1; 2; 3; 4] in
